@@ -3714,6 +3714,8 @@ func (m *Machine) PoolFork(ctx context.Context, e *Event, fn func()) bool {
 	// no pool, regular fork
 	if !ok1 || !ok2 {
 		m.Go(ctx, fn)
+
+		return true
 	}
 
 	// pool limit
